@@ -175,6 +175,7 @@ func main() {
 		})
 		fn(ca, "Cache", "recover", "recoverEvents", func(fd *ast.FuncDecl) {
 			e.Strs("recoverEvents", events(ca, fd.Body, nil), "Cache.recover")
+			e.Strs("recoverConds", conds(ca, fd.Body), "Cache.recover: the entry is removed only when it is still the caller's")
 		})
 		fn(ca, "Cache", "Release", "releaseEvents", func(fd *ast.FuncDecl) {
 			e.Strs("releaseEvents", events(ca, fd.Body, func(s string) bool { return !strings.Contains(s, "metrics") }), "Cache.Release")
